@@ -189,6 +189,8 @@ def build_groups(ck, good, scratch, flags, byname):
     cache = common.SCRATCH / "c14_cache" / "failing_units.json"
     try:
         hint = set(json.loads(cache.read_text()))
+        if len(hint) > 24:          # a polluted cache (e.g. after time-outs) would only slow things down
+            hint = set()
     except Exception:
         hint = set()
     built, failed = {}, {}
@@ -254,7 +256,7 @@ def build_groups(ck, good, scratch, flags, byname):
             failed.setdefault(u["name"], "not built after 8 rounds")
     try:
         cache.parent.mkdir(parents=True, exist_ok=True)
-        cache.write_text(json.dumps(sorted(failed)))
+        cache.write_text(json.dumps(sorted(n for n, lg in failed.items() if " error: " in lg)))
     except Exception:
         pass
     return built, failed
